@@ -482,17 +482,28 @@ func buildIntrinsics() map[string]*Native {
 	})
 	reg("strings.Clone", func(ip *Interp, a []Value) Value { return a[0] })
 	reg("internal/stringslite.Clone", func(ip *Interp, a []Value) Value { return a[0] })
-	conc1 := func(name string, f func(string) string) {
+	caseMap := func(name string, f func(string) string, lo, hi byte, delta int) {
 		reg(name, func(ip *Interp, a []Value) Value {
-			s, ok := goStr(a[0])
-			if !ok {
-				ip.unsupported("%s on symbolic string", name)
+			s := a[0].(Str)
+			if s.Concrete() {
+				return MkStr(f(s.S))
 			}
-			return MkStr(f(s))
+			// symbolic: ASCII only (other paths are unsupported: Unicode case tables are the library's)
+			tc := ip.TC
+			out := make([]*Term, s.Len())
+			for i := 0; i < s.Len(); i++ {
+				b := s.At(i)
+				if !ip.condT(tc.ULt(b, Const(SBV8, 0x80))) {
+					ip.unsupported("%s on symbolic non-ASCII string", name)
+				}
+				in := tc.And(tc.ULe(Const(SBV8, uint64(lo)), b), tc.ULe(b, Const(SBV8, uint64(hi))))
+				out[i] = tc.Ite(in, tc.Add(b, Const(SBV8, uint64(uint8(delta)))), b)
+			}
+			return normStr(out)
 		})
 	}
-	conc1("strings.ToUpper", strings.ToUpper)
-	conc1("strings.ToLower", strings.ToLower)
+	caseMap("strings.ToUpper", strings.ToUpper, 'a', 'z', -32)
+	caseMap("strings.ToLower", strings.ToLower, 'A', 'Z', 32)
 
 	// strings.Builder
 	builder := func(ip *Interp, v Value) (Struct, *Obj) {
